@@ -38,7 +38,7 @@ from prng import Rng
 ID = "C12"
 LEAN_MODULE = "RpycModel.Props.C12"
 NAMESPACE = "Rpyc.Props.C12"
-GEN = []
+GEN = ["Sendq.lean"]
 DRIVERS = ["drv_sendq"]
 TRUSTED = [
     "modelled, not verified: atomicity under the GIL of list.append, list.pop(0), truth-testing a list and "
@@ -46,7 +46,10 @@ TRUSTED = [
     "the scheduler substitutes (harness/sched.py) for OS threads and the lock; Channel.send makes 1 or 3 "
     "stream writes; a failed stream write closes the stream, so every later write fails too (true of every "
     "stream in rpyc/core/stream.py); finalizers run on the thread they interrupt; asynchronous exceptions "
-    "(KeyboardInterrupt between acquire and try) are not modelled",
+    "(KeyboardInterrupt between acquire and try) are not modelled; serialisation (brine.dump, outside the lock) is a "
+    "pure function of the message and the enqueue position does not depend on the message kind: both measured on "
+    "the live code by harness/gen_sendq.py (obligations append_is_kind_blind, serialisation_is_pure_under_reentry) "
+    "and exercised by schedules that preempt / re-enter inside brine.dump and mix requests, replies and exceptions",
 ]
 ASSUMPTIONS = [
     "scheduling granularity is one source line of Connection._send, split further so that a step contains at "
@@ -157,6 +160,12 @@ class RecQueue(list):
         run.log("a", run.ident(x))
         run.hook("a", "a", "_send_queue")
 
+    def insert(self, pos, x):
+        run = self.run
+        run.sched.before_action("_send_queue")
+        list.insert(self, pos, x)
+        run.log("i", "%s@%s" % (run.ident(x), pos))     # not an action of the model: `_send` only ever appends
+
     def _test(self):
         run = self.run
         run.sched.before_action("_send_queue")
@@ -228,7 +237,8 @@ def make_connection(stream):
 def norm_reent(e):
     """re-entrant send: while the logical thread that is sending message `trig` performs its k-th action of
     `kind` (a append, c queue test, l try-lock, p pop, r release; for w: piece k of packet `trig`, whoever
-    writes it), before ('b') or after ('a') the action takes effect, the same OS thread calls `_send(msg)`
+    writes it; d: the k-th `_dump` call of the serialisation of `trig`, i.e. INSIDE `brine.dump`, where an
+    allocation can start a collection), before ('b') or after ('a') the action takes effect, the same OS thread calls `_send(msg)`
     again — directly ('d') or because the last reference to a real netref proxy is dropped there and its
     `__del__` sends HANDLE_DEL ('g')"""
     if isinstance(e, dict):
@@ -237,19 +247,54 @@ def norm_reent(e):
     return dict(trig=trig, kind="w", k=k, when=when, msg=list(msg), via="d")
 
 
+def norm_msg(m):
+    """(id, three-write packet?, kind: q request / r reply / e exception)"""
+    m = tuple(m)
+    return (m[0], bool(m[1]), m[2] if len(m) > 2 else "q")
+
+
+_FINALIZER_DATUM = {}
+
+
+def finalizer_datum(id_pack, seq):
+    """the datum `_send` should queue when a netref proxy with this id_pack is finalized and its HANDLE_DEL
+    request gets sequence number `seq`: learnt on a scratch connection whose `_send` only records its arguments"""
+    Connection, _Channel, brine, _consts = rpyc_parts()
+    key = (id_pack, seq, Connection._async_request.__code__, brine.dump.__code__)
+    if key not in _FINALIZER_DATUM:
+        import itertools
+        from rpyc.core.netref import BaseNetref
+        conn = make_connection(ScratchStream())
+        got = []
+        conn._send = lambda msg, s, args: got.append((msg, s, args))
+        conn._seqcounter = itertools.count(seq)
+        proxy = BaseNetref(conn, id_pack)
+        del proxy
+        conn._closed = True
+        _FINALIZER_DATUM[key] = brine.dump(got[0])
+    return _FINALIZER_DATUM[key]
+
+
 class Run:
     """one execution of a configuration under the scheduler.
     progs: per OS thread, the list of (id, big) it sends; reent: see `norm_reent`; fail: (id, k) — the
     transport breaks when piece k of packet id is about to be written (that write and every later one raise)."""
 
-    def __init__(self, progs, reent=(), fail=None):
+    def __init__(self, progs, reent=(), fail=None, dumpyield=()):
         Connection, Channel, brine, consts = rpyc_parts()
         self.brine = brine
-        self.progs = [[tuple(m) for m in p] for p in progs]
+        self.kind_const = dict(q=consts.MSG_REQUEST, r=consts.MSG_REPLY, e=consts.MSG_EXCEPTION)
+        self.progs = [[norm_msg(m) for m in p] for p in progs]
+        self.dumpyield = set((m, k) for m, k in dumpyield)   # park before the k-th `_dump` call of message m
+        self.dump_calls = {}              # logical thread -> `_dump` calls so far in its current call
+        self._park_in_dump = False
         self.reent = [norm_reent(e) for e in reent]
         self.fail = tuple(fail) if fail else None
         self.msg_kind = consts.MSG_REQUEST
-        self.sched = S.Scheduler(targets=[Connection._send.__code__], skip=skip_line)
+        self.dump_code, self.dump1_code = brine.dump.__code__, brine._dump.__code__
+        self.send_code = Connection._send.__code__
+        self.sched = S.Scheduler(targets=[self.send_code, self.dump_code, self.dump1_code], skip=self.skip,
+                                 on_line=self.on_line)
         self.actions = []                 # tokens, in the order the real code acted
         self.raw = bytearray()            # every byte the stream accepted
         self.n_os = len(self.progs)
@@ -257,7 +302,7 @@ class Run:
         self.lstack = dict((t, []) for t in range(self.n_os))       # active `_send` activations per OS thread
         self.call_order = dict((t, []) for t in range(self.n_os))   # ids in the order each OS thread called _send
         self.early = set()                # ids of nested calls that started before an enclosing call had appended
-        self.lt_prog = dict((t, [m for m, _b in p]) for t, p in enumerate(self.progs))
+        self.lt_prog = dict((t, [m[0] for m in p]) for t, p in enumerate(self.progs))
         self.os_of = {}                   # message id -> OS thread that called _send with it
         self.errors = []
         self.expected_exc = 0             # calls ended by the injected transport failure
@@ -272,10 +317,15 @@ class Run:
         self.dead = False
         self.lost = []
         self.stub = 0
-        self.big, self.payload, self.id_of_data, self.pieces_of = {}, {}, {}, {}
-        for mid, big in [m for p in self.progs for m in p] + [tuple(e["msg"]) for e in self.reent]:
+        # what every message should look like on the wire: serialised here, single-threaded, before any sender
+        # runs (serialisation is a pure function of the message - the model's assumption, checked by the
+        # schedules that preempt or re-enter inside brine.dump)
+        self.big, self.payload, self.kind, self.expected, self.id_of_data = {}, {}, {}, {}, {}
+        for mid, big, kind in [m for p in self.progs for m in p] + [norm_msg(e["msg"]) for e in self.reent]:
             self.big[mid] = bool(big)
-            self.payload[mid] = bytes(PAD_BIG) if big else b""
+            self.kind[mid] = kind
+            self.payload[mid] = (bytes(PAD_BIG) if big else b"", mid)
+            self.expected[mid] = brine.dump((self.kind_const[kind], mid, self.payload[mid]))
         try:
             conn = make_connection(RecStream(self))
             self.bare = False
@@ -296,6 +346,9 @@ class Run:
             for i, e in enumerate(self.reent):
                 if e["via"] == "g":
                     self.victims[i] = BaseNetref(conn, ("builtins.object", 1000 + i, 0))
+                    self.expected[e["msg"][0]] = finalizer_datum(("builtins.object", 1000 + i, 0), e["msg"][0])
+        for mid, data in self.expected.items():
+            self.id_of_data[data] = mid
         self.inexpressible = []
         for t in range(self.n_os):
             self.sched.spawn(t, self.body, t)
@@ -333,20 +386,32 @@ class Run:
         self.actions.append(tok)
 
     def ident(self, data):
-        """the id (= seq field) of a queued datum, '?' if it is not a datum `_send` could have produced"""
+        """the id of a queued datum: it must be, byte for byte, the serialisation of one of the messages"""
         if not isinstance(data, (bytes, bytearray)):
             return "?"
-        data = bytes(data)
-        if data not in self.id_of_data:
-            try:
-                _msg, seq, _args = self.brine.load(data)
-            except Exception:  # noqa
-                seq = "?"
-            self.id_of_data[data] = seq if seq in self.big else "?"
-        return self.id_of_data[data]
+        return self.id_of_data.get(bytes(data), "?")
 
     def pieces(self, data):
         return wire_form(bytes(data))
+
+    def skip(self, code, lineno):
+        if code is self.send_code:
+            return skip_line(code, lineno)
+        return not self._park_in_dump
+
+    def on_line(self, frame):
+        """runs on the sending thread at every traced line: counts the `_dump` calls of the serialisation in
+        progress, decides whether this one is a scheduling point, and fires the nested sends scripted there"""
+        self._park_in_dump = False
+        if frame.f_code is not self.dump1_code:
+            return
+        lt = self.lt()
+        k = self.dump_calls.get(lt, 0)
+        self.dump_calls[lt] = k + 1
+        mid = self.cur_call.get(lt)
+        self._park_in_dump = (mid, k) in self.dumpyield
+        if self.reent:
+            self.hook("d", "b", "_dump", index=k)
 
     def pre_lock(self, kind):
         self.hook("l" if kind in ("try", "block") else "r", "b", "_sendlock")
@@ -371,8 +436,8 @@ class Run:
         k = self.writes_since_pop.get(lt, 0)
         if k == 0:
             mid = "?"
-            for data, i in self.id_of_data.items():
-                if i != "?" and self.pieces(data)[0] == chunk:
+            for i, data in self.expected.items():
+                if self.pieces(data)[0] == chunk:
                     mid = i
             self.cur_id[lt] = mid
         else:
@@ -406,12 +471,9 @@ class Run:
         self.hook("w", "a", "_channel", packet=(mid, k))
 
     def data_of(self, mid):
-        for data, i in self.id_of_data.items():
-            if i == mid:
-                return data
-        return None
+        return self.expected.get(mid)
 
-    def hook(self, kind, when, label, packet=None):
+    def hook(self, kind, when, label, packet=None, index=None):
         """fire the re-entrant sends scripted for this point"""
         if not self.reent:
             return
@@ -421,6 +483,9 @@ class Run:
                 continue
             if kind == "w":
                 if packet != (e["trig"], e["k"]):
+                    continue
+            elif kind == "d":
+                if self.cur_call.get(lt) != e["trig"] or index != e["k"]:
                     continue
             elif self.cur_call.get(lt) != e["trig"] or self.counts.get(lt, {}).get(kind, 0) - (when == "a") != e["k"]:
                 continue
@@ -433,10 +498,10 @@ class Run:
                 self.victims.pop(i)                            # last reference: BaseNetref.__del__ runs here
             else:
                 try:
-                    self.conn._send(self.msg_kind, mid, self.payload[mid])
+                    self.conn._send(self.kind_const[self.kind[mid]], mid, self.payload[mid])
                 except Exception:  # noqa - a finalizer's exception is swallowed by the interpreter
                     pass
-            if when == "b":
+            if when == "b" and kind != "d":
                 self.sched.yield_point(label)
                 self.sched.touch(label)
 
@@ -461,6 +526,7 @@ class Run:
         self.call_order[os_t].append(mid)
         self.os_of[mid] = os_t
         self.cur_call[lt] = mid
+        self.dump_calls[lt] = 0
         self.counts[lt] = {}
         self.appended_flag[lt] = False
         self.tok("s%d:%s" % (lt, mid))
@@ -482,16 +548,16 @@ class Run:
             stack.pop()
 
     def body(self, os_t):
-        for mid, _big in self.progs[os_t]:
+        for mid, _big, kind in self.progs[os_t]:
             try:
-                self.conn._send(self.msg_kind, mid, self.payload[mid])
+                self.conn._send(self.kind_const[kind], mid, self.payload[mid])
             except EOFError:
                 if not self.dead:
                     raise             # after the injected failure the thread goes on with its next message
 
     # -------------------------------------------------------------- driver side
     def op_line(self):
-        progs = [",".join("%d%s" % (m, "b" if self.big[m] else "s") for m, _ in p) or "-" for p in self.progs]
+        progs = [",".join("%d%s" % (m[0], "b" if self.big[m[0]] else "s") for m in p) or "-" for p in self.progs]
         return "sendq trace %d %s | %s" % (self.n_os, " ".join(progs), " ".join(self.actions))
 
     def wire_packets(self):
@@ -514,8 +580,13 @@ class Run:
                 rs.pos = start
                 break
             mid = self.ident(data)
-            if mid == "?" or data != self.data_of(mid):
-                problem = "packet at byte %d is not one of the messages sent" % start
+            if mid == "?":
+                try:
+                    seq = self.brine.load(data)[1]
+                except Exception:  # noqa
+                    seq = "?"
+                problem = ("the packet at byte %d is not the serialisation of any message that was sent (it decodes to "
+                           "seq %r, %d bytes)" % (start, seq, len(data)))
                 break
             ids.append(mid)
         return ids, len(rs.data) - rs.pos, problem
@@ -581,8 +652,22 @@ def line_access():
             parent[ch] = node
     acc = dict((ln, frozenset()) for ln in range(first, first + len(lines)))
 
+    def span(node):
+        """the lines of the statement (for a compound statement: of its header) the node belongs to: a line event
+        is raised for some of them only, and one step can execute all of them"""
+        st = node
+        while st in parent and not isinstance(st, ast.stmt):
+            st = parent[st]
+        if not isinstance(st, ast.stmt):
+            return range(node.lineno, (getattr(node, "end_lineno", None) or node.lineno) + 1)
+        last = getattr(st, "end_lineno", None) or st.lineno
+        body = getattr(st, "body", None)
+        if isinstance(body, list) and body and isinstance(body[0], ast.stmt):
+            last = max(st.lineno, body[0].lineno - 1)
+        return range(st.lineno, last + 1)
+
     def add(node, item):
-        for ln in range(node.lineno, (getattr(node, "end_lineno", None) or node.lineno) + 1):
+        for ln in span(node):
             a = acc.get(ln + first - 1, frozenset())
             acc[ln + first - 1] = None if (item is None or a is None) else a | frozenset([item])
 
@@ -624,7 +709,7 @@ def state_key(run):
             tuple(sorted(run.writes_since_pop.items())), tuple(sorted((k, str(v)) for k, v in run.cur_id.items())),
             tuple(sorted((k, str(v)) for k, v in run.cur_call.items())),
             tuple(sorted((k, tuple(sorted(v.items()))) for k, v in run.counts.items())),
-            tuple(sorted(run.appended_flag.items())),
+            tuple(sorted(run.appended_flag.items())), tuple(sorted(run.dump_calls.items())),
             None if run.hand is None else (str(run.hand[0]), run.hand[1]), len(run.errors), run.expected_exc)
 
 
@@ -646,13 +731,13 @@ def access(run, tid):
 
 
 # ---------------------------------------------------------------------------------------------- configurations
-def cfg(progs, reent=(), fail=None):
-    return dict(progs=[[list(m) for m in p] for p in progs], reent=[norm_reent(e) for e in reent],
-                fail=list(fail) if fail else None)
+def cfg(progs, reent=(), fail=None, dumpyield=()):
+    return dict(progs=[[list(norm_msg(m)) for m in p] for p in progs], reent=[norm_reent(e) for e in reent],
+                fail=list(fail) if fail else None, dumpyield=[list(d) for d in dumpyield])
 
 
 def new_run(c):
-    return Run(c["progs"], c.get("reent", ()), c.get("fail"))
+    return Run(c["progs"], c.get("reent", ()), c.get("fail"), c.get("dumpyield", ()))
 
 
 C_2x1 = cfg([[(1, False)], [(2, False)]])
@@ -686,6 +771,10 @@ C_2x12_FAIL0 = cfg([[(1, False)], [(2, False), (3, False)]], fail=(1, 0))
 C_2x1_BIG_FAIL1 = cfg([[(1, True), (3, False)], [(2, False)]], fail=(1, 1))
 C_2x1_BIG_FAIL2_R = cfg([[(1, True)], [(2, False)]], [H(1, "w", 1, "b", (9, False), "g")], fail=(1, 2))
 C_2x2_FAIL = cfg([[(1, False), (2, False)], [(3, False), (4, False)]], fail=(3, 0))
+C_2x1_DUMP = cfg([[(1, False)], [(2, False)]], dumpyield=[(1, 1), (1, 3), (1, 5), (2, 2), (2, 4)])
+C_2x1_DUMP_GC = cfg([[(1, False)], [(2, False)]], [H(1, "d", 3, "b", (9, False), "g")], dumpyield=[(2, 2)])
+C_2x12_KINDS = cfg([[(1, False, "r")], [(2, False, "q"), (3, False, "r")]])
+C_2x12_KINDS2 = cfg([[(1, True, "q")], [(2, False, "r"), (3, False, "e")]])
 C_4x1 = cfg([[(1, False)], [(2, False)], [(3, False)], [(4, False)]])
 C_2x4 = cfg([[(1, False), (2, False), (3, False), (4, False)], [(5, False), (6, False), (7, False), (8, False)]])
 C_2x15 = cfg([[(1, False)], [(2, False), (3, False), (4, False), (5, False), (6, False)]])
@@ -693,17 +782,20 @@ C_2x15 = cfg([[(1, False)], [(2, False), (3, False), (4, False), (5, False), (6,
 
 def quick_exhaustive():
     """explored path by path: EVERY interleaving (up to the order of independent steps)"""
-    return [("2x1", C_2x1), ("2x1-big", C_2x1_BIG), ("2x(1,2)", C_2x12),
+    return [("2x1", C_2x1), ("2x1-big", C_2x1_BIG),
             ("2x1+reentrant-before-write", C_2x1_RB), ("1x1-big+reentrant-mid-packet-twice", C_1x1_NESTED)]
 
 
 def thorough_exhaustive():
-    return [("2x1+reentrant-after-write", C_2x1_RA), ("2x(1,2)+write-fails", C_2x12_FAIL0)]
+    return [("2x(1,2)", C_2x12), ("2x1+reentrant-after-write", C_2x1_RA), ("2x(1,2)+write-fails", C_2x12_FAIL0),
+            ("2x(1,2)-mixed-kinds", C_2x12_KINDS)]
 
 
 def quick_stateful():
     """explored state by state: every reachable state expanded once, every transition executed"""
-    return ([("2x1+reentrant-after-write", C_2x1_RA), ("2x2", C_2x2),
+    return ([("2x(1,2)", C_2x12), ("2x(1,2)-request+reply", C_2x12_KINDS), ("2x(1,2)-big+reply+exception", C_2x12_KINDS2),
+             ("2x1+preemption-inside-brine.dump", C_2x1_DUMP), ("2x1+netref-finalizer-inside-brine.dump", C_2x1_DUMP_GC),
+             ("2x1+reentrant-after-write", C_2x1_RA), ("2x2", C_2x2),
              ("2x(1,2)+write-fails", C_2x12_FAIL0), ("2x(2,1)-big+write-fails-mid-packet", C_2x1_BIG_FAIL1),
              ("2x1-big+netref-finalizer+write-fails", C_2x1_BIG_FAIL2_R)]
             + [c for c in C_EVERY_LINE if c[0].split("@")[1] in ("a0b", "l0a", "p0b", "r0a")])
@@ -720,32 +812,39 @@ def bounded_configs():
 
 
 def random_config(r, with_reent, large=False, with_fail=False):
-    """2-3 threads x 1-3 messages (large: up to 5 threads x up to 5 messages); re-entrant sends at random lines of
-    `_send` (half through a real netref finalizer), possibly nested in one another; optionally a failing write"""
+    """2-3 threads x 1-3 messages (large: up to 5 threads x up to 5 messages) of random kinds (request / reply /
+    exception); re-entrant sends at random lines of `_send` and inside `brine.dump` (half through a real netref
+    finalizer), possibly nested in one another; preemption points inside `brine.dump`; optionally a failing write"""
     nthreads = r.range(2, 5) if large else (3 if r.chance(3, 4) else 2)
     progs, mid = [], 1
     for _ in range(nthreads):
         p = []
         for _ in range(r.range(1, 5 if large else 3)):
-            p.append((mid, r.chance(1, 4)))
+            p.append((mid, r.chance(1, 4), r.choice("qqre")))
             mid += 1
         progs.append(p)
-    bigof = dict(m for p in progs for m in p)
+    bigof = dict((m[0], m[1]) for p in progs for m in p)
     reent = []
     if with_reent:
         for j in range(r.range(1, 3)):
             trig = r.range(1, mid - 1)
-            kind = r.choice("aclprwww")
-            k = r.below(3) if (kind == "w" and bigof[trig]) else (0 if kind in "apw" else r.below(3))
+            kind = r.choice("aclprwwwd")
+            k = (r.below(3) if (kind == "w" and bigof[trig]) else r.range(1, 5) if kind == "d"
+                 else 0 if kind in "apw" else r.below(3))
             big = r.chance(1, 6)
-            reent.append(H(trig, kind, k, r.choice("ba"), (90 + j, big), "d" if big or r.chance(1, 2) else "g"))
+            when = "b" if kind == "d" else r.choice("ba")
+            reent.append(H(trig, kind, k, when, (90 + j, big, r.choice("qr")), "d" if big or r.chance(1, 2) else "g"))
         if r.chance(1, 4):      # a nested send inside the transmission of a nested send's message
             reent.append(H(90, "w", 0, r.choice("ba"), (95, False), r.choice("dg")))
     fail = None
     if with_fail:
         t = r.range(1, mid - 1)
         fail = (t, r.below(3) if bigof[t] else 0)
-    return cfg(progs, reent, fail)
+    dumpyield = []
+    if r.chance(1, 3):
+        for _ in range(r.range(1, 4)):
+            dumpyield.append((r.range(1, mid - 1), r.range(1, 5)))
+    return cfg(progs, reent, fail, dumpyield)
 
 
 # ---------------------------------------------------------------------------------------------- exploring
@@ -764,7 +863,7 @@ class Batch:
         line = run.op_line()
         want = run.facts(res)
         case = dict(kind="schedule", progs=conf["progs"], reent=conf["reent"], fail=conf.get("fail"),
-                    schedule=list(res.schedule))
+                    dumpyield=conf.get("dumpyield", []), schedule=list(res.schedule))
         if run.dead and run.sched.all_finished():
             self.c.count("after-failed-write:all-returned")
             if list.__len__(run.conn._send_queue):
@@ -806,6 +905,11 @@ class Batch:
                                        ("accept", "stuck", "done", "order", "dead", "osorder")))
             c.count("threads:%d" % len(case["progs"]))
             c.count("messages-per-thread-max:%d" % max(len(p) for p in case["progs"]))
+            for p in case["progs"]:
+                for m in p:
+                    c.count("message-kind:" + dict(q="request", r="reply", e="exception")[m[2] if len(m) > 2 else "q"])
+            if case.get("dumpyield"):
+                c.count("preemption-inside-brine.dump")
             for e in case["reent"]:
                 c.count("nested-send@%s%d%s-via-%s" % (e["kind"], e["k"], e["when"],
                                                         "netref-finalizer" if e["via"] == "g" else "direct-call"))
@@ -816,12 +920,13 @@ class Batch:
                 c.disagreements.append(dict(case=case, op=line[:1500], impl=want, model=got[:400]))
             elif len(c.samples) < 10 and (c.evaluations % 397 == 1 or (case["reent"] and c.evaluations % 97 == 3)):
                 c.samples.append(dict(family=family, progs=case["progs"], reent=case["reent"], fail=case["fail"],
+                                      dumpyield=case["dumpyield"],
                                       schedule="".join(str(t) for t in case["schedule"]),
                                       trace=" ".join(actions), outcome=want))
         self.pending = []
 
 
-KIND_NAME = dict(s="call", D="transport-breaks", f="failed-write", a="append", c="queue-test", l="try-lock", p="pop", w="stream-write", r="release", x="return",
+KIND_NAME = dict(i="queue-insert", s="call", D="transport-breaks", f="failed-write", a="append", c="queue-test", l="try-lock", p="pop", w="stream-write", r="release", x="return",
                  n="nested-send", e="exception", B="blocking-acquire", L="blocking-acquire-granted",
                  R="release-unlocked", P="pop-failed")
 
@@ -934,7 +1039,7 @@ def correspondence(ctx):
     for path in sorted(glob.glob(os.path.join(os.path.dirname(os.path.abspath(__file__)), "..", "..", "corpus", "C12", "*.json"))):
         with open(path) as f:
             case = json.load(f)["case"]
-        conf = dict(progs=case["progs"], reent=case.get("reent", []), fail=case.get("fail"))
+        conf = dict(progs=case["progs"], reent=case.get("reent", []), fail=case.get("fail"), dumpyield=case.get("dumpyield", []))
         run, res = run_one(conf, schedule=case["schedule"])
         try:
             batch.add("corpus:" + os.path.basename(path)[:-5], conf, run, res)
@@ -1141,14 +1246,15 @@ def oracle_search(ctx, corr, broken):
                 best, actions, msg = trial, acts, v[0]
                 break
             lo += 1
-        case = dict(kind="schedule", progs=conf["progs"], reent=conf["reent"], fail=conf.get("fail"), schedule=best)
+        case = dict(kind="schedule", progs=conf["progs"], reent=conf["reent"], fail=conf.get("fail"),
+                    dumpyield=conf.get("dumpyield", []), schedule=best)
         return case, "%s | actions: %s" % (msg, " ".join(actions)), sig
 
     known = getattr(ctx, "known_signatures", set())
     # 1. schedules the correspondence disagreed on
     for d in corr.disagreements[:300]:
         case = d["case"]
-        conf = dict(progs=case["progs"], reent=case.get("reent", []), fail=case.get("fail"))
+        conf = dict(progs=case["progs"], reent=case.get("reent", []), fail=case.get("fail"), dumpyield=case.get("dumpyield", []))
         v, schedule, actions = oracle_case(conf, case["schedule"])
         if v and v[1] not in known:
             return report(conf, schedule, v, actions)
@@ -1183,7 +1289,7 @@ def oracle_search(ctx, corr, broken):
 
 
 def replay(case):
-    conf = dict(progs=case["progs"], reent=case.get("reent", []), fail=case.get("fail"))
+    conf = dict(progs=case["progs"], reent=case.get("reent", []), fail=case.get("fail"), dumpyield=case.get("dumpyield", []))
     run, res = run_one(conf, schedule=case["schedule"])
     try:
         v = oracle(run, res)
